@@ -1144,7 +1144,31 @@ func (fr *Frame) enterLoop(li *loopInfo) {
 			fr.vc.e.calledNames(b, inLoop, map[*ssa.Function]bool{}, 0)
 		}
 	}
+	anyLast := false
 	for name := range vc.mapSorts {
+		if strings.HasPrefix(name, "$calls_$last_") && (inLoop["*"] || inLoop[strings.TrimPrefix(name, "$calls_$last_")]) {
+			anyLast = true
+		}
+	}
+	if anyLast {
+		old := vc.hget(fr.heap, "$calls_$tick")
+		n := vc.free("$calls_$tick", "Int")
+		vc.setRng(n, sApp("<=", old, n))
+		fr.heap.m["$calls_$tick"] = n
+	}
+	for name := range vc.mapSorts {
+		if name == "$calls_$tick" {
+			continue
+		}
+		if strings.HasPrefix(name, "$calls_$last_") {
+			if inLoop["*"] || inLoop[strings.TrimPrefix(name, "$calls_$last_")] {
+				old := vc.hget(fr.heap, name)
+				n := vc.free(name, "Int")
+				vc.setRng(n, sAnd(sApp("<=", old, n), sApp("<=", n, vc.hget(fr.heap, "$calls_$tick"))))
+				fr.heap.m[name] = n
+			}
+			continue
+		}
 		if strings.HasPrefix(name, "$calls_") && (inLoop["*"] || inLoop[strings.TrimPrefix(name, "$calls_")]) {
 			old := vc.hget(fr.heap, name)
 			n := vc.free(name, "Int")
@@ -1830,6 +1854,18 @@ func (e *Engine) calledNames(b *ssa.BasicBlock, out map[string]bool, seen map[*s
 			cc = x.Common()
 		case *ssa.Defer:
 			cc = x.Common()
+		case *ssa.Go:
+			if f, ok := x.Call.Value.(*ssa.Function); ok {
+				n := fnName(f)
+				out[calleeShort(n)] = true
+				out[strings.ReplaceAll(calleeQual(n), ".", "__")] = true
+			}
+		case *ssa.Send:
+			out["chansend"] = true
+		case *ssa.UnOp:
+			if x.Op == token.ARROW {
+				out["chanrecv"] = true
+			}
 		}
 		if cc == nil {
 			continue
